@@ -11,6 +11,7 @@ import (
 )
 
 type zkRead struct {
+	t    time.Duration
 	seq  uint64
 	path string
 	data string
@@ -275,7 +276,7 @@ func (m *Monitors) onZKEvent(e *ZKEvent) {
 	if it := m.iters[e.Inc]; it != nil && it.open {
 		switch e.Op {
 		case "get", "children", "exists":
-			it.reads = append(it.reads, zkRead{e.Seq, rel, e.Data, e.Err, e.Op})
+			it.reads = append(it.reads, zkRead{e.T, e.Seq, rel, e.Data, e.Err, e.Op})
 		case "create", "set", "delete":
 			it.zkWrites = append(it.zkWrites, e)
 		}
